@@ -270,8 +270,8 @@ def x86(s, name, I, A, T):
     D = s.dom
     m = re.fullmatch(r'(sse|sse2|avx|avx512)\.(min|max)\.(ps|pd|ss|sd)(\.256|\.512)?', n)
     if m:
-        w = fw(T[0]); g = D.x86min if m.group(2) == 'min' else D.x86max
-        f = lambda x, y: UNDEF if isinstance(x, Undef) or isinstance(y, Undef) else g(s.as_float(x, w), s.as_float(y, w))
+        w = fw(T[0]); pr = 'olt' if m.group(2) == 'min' else 'ogt'
+        f = lambda x, y: UNDEF if isinstance(x, Undef) or isinstance(y, Undef) else s.select1(s.fcmp(pr, x, y, w), s.as_float(x, w), s.as_float(y, w))
         if m.group(3) in ('ss', 'sd'): return [f(A[0][0], A[1][0])] + list(A[0][1:])
         return [f(x, y) for x, y in zip(A[0], A[1])]
     m = re.fullmatch(r'(sse3|avx)\.(hadd|hsub)\.(ps|pd)(\.256)?', n)
